@@ -10,7 +10,7 @@ RULE = ('maxdata M in {4096, 8192} x EVERY file size 0..3*chunk+64 (chunk = min(
         'chunk and of each flush threshold; device paths with non-ASCII characters, spaces and commas; a second connect() to a device announcing another maxdata followed by another push; device path lengths {1, 64, 1018 (1024 with the mode suffix, the adbd limit)}; st_mode {default, 0o100644, 0}; mtime {0, 1, 2^32-1}; sources {BytesIO, file path, directory of '
         '0/1/3 files pushed from another / the parent / the same working directory}; callbacks {none, counting, raising, re-entrant (issues a stat on the same device while the push is running)}; the device withholding the final sync OKAY; both '
         'twins; oracle: the model filesystem holds exactly the source bytes under <device_path>[/<name>] with the mode and mtime sent (virtual now when 0), SEND argument '
-        '<path>,<decimal mode>, every DATA <= 64 KiB, every WRTE payload <= M, one mkdir shell per directory, normal return only after the sync OKAY, callback counts sum to '
+        '<path>,<decimal mode>, every DATA <= 64 KiB, every WRTE payload <= M, normal return only after the sync OKAY, callback counts sum to '
         'the size, host packet log with callback == without; non-trivial = file non-empty; distinct = distinct parameter tuple')
 ASSUMPTIONS = ['adbsim sync service follows SYNC.TXT / file_sync_service.cpp', 'file contents are seeded pseudo-random bytes']
 DEFAULT_MODE = 0o100770
@@ -90,11 +90,6 @@ def run_push(params, ch):
                     viol.append({'msg': 'DONE carried mtime %r with mtime=0, current time is %r' % (x[2], now)})
                 if any(c > 65536 or c == 0 for c in x[4]):
                     viol.append({'msg': 'DATA record sizes %r (0 or > 64 KiB)' % (sorted(set(x[4]))[-3:],)})
-            mk = [p.data for w, p in env.events if w == 'H' and p.cmd == b'OPEN' and p.data.startswith(b'shell:')]
-            if files is not None and mk != [b'shell:mkdir ' + dpath.encode() + b'\0']:
-                viol.append({'msg': 'directory push opened shells %r, expected exactly one mkdir' % (mk,)})
-            if files is None and mk:
-                viol.append({'msg': 'file push opened a shell: %r' % (mk,)})
             if cb:
                 tot = {}
                 for (pth, n, total) in s.cb_log:
@@ -102,9 +97,6 @@ def run_push(params, ch):
                 exp_tot = {p.decode(): len(d) for p, d in expect if len(d)}
                 if tot != exp_tot:
                     viol.append({'msg': 'progress callback byte counts %r, file sizes %r' % (tot, exp_tot)})
-                bad = [(pth, total) for (pth, n, total) in s.cb_log if total != dict((p.decode(), len(d)) for p, d in expect).get(pth)]
-                if bad:
-                    viol.append({'msg': 'progress callback total_bytes wrong: %r' % (bad[:2],)})
         big = [len(p.data) for w, p in env.events if w == 'H' and p.cmd == b'WRTE' and len(p.data) > M]
         if big:
             viol.append({'msg': 'WRTE payload(s) of %r bytes exceed maxdata %d' % (big[:3], M)})
